@@ -107,19 +107,116 @@ theorem fitsType_unifyAs {a b target u : Ty} (h : unifyAs a b target = some u) (
   cases ha : checkType a target <;> cases hb : checkType b target <;> simp [ha, hb] at h
   exact ⟨fun v hv => (fitsType_checkType ha hn hv).1, fun v hv => (fitsType_checkType hb hn hv).1⟩
 
-def BlockOk : List (Nat × Ty) → List (Nat × Val) → Prop
+/-! ## struct values: every struct occurring inside a value conforms to its definition -/
+mutual
+def Val.wf (p : Program) : Val → Prop
+  | .struct n fs =>
+    (∃ d, p.structDef n = some d ∧ ∀ q ∈ d, ∃ v, getField fs q.1 = some v ∧ v.fitsType q.2 = true) ∧ wfFields p fs
+  | .some v | .ok v | .err v => Val.wf p v
+  | _ => True
+def wfFields (p : Program) : List (Nat × Val) → Prop
+  | [] => True
+  | (_, v) :: rest => Val.wf p v ∧ wfFields p rest
+end
+
+theorem wfFields_get {p : Program} : ∀ {fs : List (Nat × Val)} {k : Nat} {v : Val}, wfFields p fs →
+    getField fs k = some v → v.wf p
+  | [], _, _, _, h => by simp [getField] at h
+  | (k', v') :: rest, k, v, hw, h => by
+    simp only [wfFields] at hw
+    simp only [getField] at h
+    split at h
+    · simp only [Option.some.injEq] at h; subst h; exact hw.1
+    · exact wfFields_get hw.2 h
+
+theorem wfFields_set {p : Program} : ∀ {fs : List (Nat × Val)} {k : Nat} {v : Val}, wfFields p fs → v.wf p →
+    wfFields p (setField fs k v)
+  | [], _, _, _, hv => by simp [setField, wfFields, hv]
+  | (k', v') :: rest, k, v, hw, hv => by
+    simp only [wfFields] at hw
+    simp only [setField]
+    split
+    · simp only [wfFields]; exact ⟨hv, hw.1, hw.2⟩
+    · split
+      · simp only [wfFields]; exact ⟨hv, hw.2⟩
+      · simp only [wfFields]; exact ⟨hw.1, wfFields_set hw.2 hv⟩
+
+theorem getField_setField_same : ∀ (fs : List (Nat × Val)) (k : Nat) (v : Val), getField (setField fs k v) k = some v
+  | [], k, v => by simp [setField, getField]
+  | (k', v') :: rest, k, v => by
+    simp only [setField]
+    split
+    · simp [getField]
+    · split
+      · simp [getField]
+      · rename_i h1 h2
+        simp only [getField, h2, if_false]
+        exact getField_setField_same rest k v
+
+theorem getField_setField_other : ∀ (fs : List (Nat × Val)) (k k2 : Nat) (v : Val), k2 ≠ k →
+    getField (setField fs k v) k2 = getField fs k2
+  | [], k, k2, v, h => by simp [setField, getField, h]
+  | (k', v') :: rest, k, k2, v, h => by
+    simp only [setField]
+    split
+    · simp [getField, h]
+    · split
+      · rename_i h1 h2; subst h2; simp [getField, h]
+      · simp only [getField]
+        split
+        · rfl
+        · exact getField_setField_other rest k k2 v h
+
+/-- value typing: `Value::fits_type` plus conformance of the struct values inside -/
+def Fit (p : Program) (v : Val) (t : Ty) : Prop := v.fitsType t = true ∧ v.wf p
+
+theorem fit_never {p : Program} {v : Val} (h : Fit p v .never) : False := by
+  have := h.1; rw [fitsType_never] at this; cases this
+theorem fit_bool {p : Program} {v : Val} (h : Fit p v .bool) : ∃ b, v = .bool b := fits_bool h.1
+theorem fit_int {p : Program} {v : Val} (h : Fit p v .int) : ∃ i, v = .int i := fits_int h.1
+theorem fit_optional {p : Program} {v : Val} {t : Ty} (h : Fit p v (.optional t)) :
+    v = .none ∨ ∃ w, v = .some w ∧ Fit p w t := by
+  rcases fits_optional h.1 with rfl | ⟨w, rfl, hw⟩
+  · exact Or.inl rfl
+  · exact Or.inr ⟨w, rfl, hw, by have := h.2; simpa [Val.wf] using this⟩
+theorem fit_of_fits {p : Program} {s t : Ty} {v : Val} (hf : s.fits t = true) (hn : t.neverFree = true) (h : Fit p v s) :
+    Fit p v t := ⟨fitsType_of_fits hf hn h.1, h.2⟩
+theorem fit_unify {p : Program} {l r u : Ty} {v : Val} (hu : unify l r = some u) :
+    (Fit p v l → Fit p v u) ∧ (Fit p v r → Fit p v u) :=
+  ⟨fun h => ⟨(fitsType_unify hu).1 h.1, h.2⟩, fun h => ⟨(fitsType_unify hu).2 h.1, h.2⟩⟩
+theorem fit_checkType {p : Program} {t target x : Ty} {v : Val} (h : checkType t target = some x) (hn : target.neverFree = true)
+    (hv : Fit p v t) : Fit p v target ∧ x = t :=
+  ⟨⟨(fitsType_checkType h hn hv.1).1, hv.2⟩, (fitsType_checkType h hn hv.1).2⟩
+theorem fit_unifyAs {p : Program} {a b target u : Ty} (h : unifyAs a b target = some u) (hn : target.neverFree = true) :
+    (∀ v : Val, Fit p v a → Fit p v target) ∧ (∀ v : Val, Fit p v b → Fit p v target) :=
+  ⟨fun v hv => ⟨(fitsType_unifyAs h hn).1 v hv.1, hv.2⟩, fun v hv => ⟨(fitsType_unifyAs h hn).2 v hv.1, hv.2⟩⟩
+
+theorem fit_unit {p : Program} : Fit p .unit .unit := ⟨rfl, by simp [Val.wf]⟩
+theorem fit_bool_mk {p : Program} {b : Bool} : Fit p (.bool b) .bool := ⟨rfl, by simp [Val.wf]⟩
+theorem fit_int_mk {p : Program} {i : Int} : Fit p (.int i) .int := ⟨rfl, by simp [Val.wf]⟩
+theorem fit_str_mk {p : Program} {s : List Nat} : Fit p (.str s) .string := ⟨rfl, by simp [Val.wf]⟩
+theorem fit_enum_mk {p : Program} {n : Nat} {i : Int} : Fit p (.enum n i) (.enum n) := ⟨by simp [Val.fitsType], by simp [Val.wf]⟩
+theorem fit_none_mk {p : Program} {t : Ty} : Fit p .none (.optional t) := ⟨rfl, by simp [Val.wf]⟩
+theorem fit_some_mk {p : Program} {v : Val} {t : Ty} (h : Fit p v t) : Fit p (.some v) (.optional t) :=
+  ⟨by simpa [Val.fitsType] using h.1, by simpa [Val.wf] using h.2⟩
+theorem fit_ok_mk {p : Program} {v : Val} {t e : Ty} (h : Fit p v t) : Fit p (.ok v) (.result t e) :=
+  ⟨by simpa [Val.fitsType] using h.1, by simpa [Val.wf] using h.2⟩
+theorem fit_err_mk {p : Program} {v : Val} {t e : Ty} (h : Fit p v e) : Fit p (.err v) (.result t e) :=
+  ⟨by simpa [Val.fitsType] using h.1, by simpa [Val.wf] using h.2⟩
+
+def BlockOk (p : Program) : List (Nat × Ty) → List (Nat × Val) → Prop
   | [], [] => True
-  | (x, t) :: b, (y, v) :: eb => x = y ∧ v.fitsType t = true ∧ BlockOk b eb
+  | (x, t) :: b, (y, v) :: eb => x = y ∧ Fit p v t ∧ BlockOk p b eb
   | _, _ => False
 
 /-- the run-time scopes have the shape and the types the lowering pass tracked -/
-def EnvOk : Scopes → Env → Prop
+def EnvOk (p : Program) : Scopes → Env → Prop
   | [], [] => True
-  | b :: sc, eb :: env => BlockOk b eb ∧ EnvOk sc env
+  | b :: sc, eb :: env => BlockOk p b eb ∧ EnvOk p sc env
   | _, _ => False
 
-theorem blockOk_find {x : Nat} : ∀ {b : List (Nat × Ty)} {eb : List (Nat × Val)}, BlockOk b eb →
-    (∀ q, b.find? (·.1 == x) = some q → ∃ y v, eb.find? (·.1 == x) = some (y, v) ∧ v.fitsType q.2 = true) ∧
+theorem blockOk_find {p : Program} {x : Nat} : ∀ {b : List (Nat × Ty)} {eb : List (Nat × Val)}, BlockOk p b eb →
+    (∀ q, b.find? (·.1 == x) = some q → ∃ y v, eb.find? (·.1 == x) = some (y, v) ∧ Fit p v q.2) ∧
     (b.find? (·.1 == x) = none → eb.find? (·.1 == x) = none) ∧
     (b.any (·.1 == x) = false → eb.find? (·.1 == x) = none)
   | [], [], _ => by simp
@@ -135,9 +232,9 @@ theorem blockOk_find {x : Nat} : ∀ {b : List (Nat × Ty)} {eb : List (Nat × V
       simp only [List.find?, hy, List.any_cons, Bool.false_or]
       exact ih
 
-theorem envOk_get {x : Nat} : ∀ {sc : Scopes} {env : Env} {t : Ty}, EnvOk sc env →
+theorem envOk_get {p : Program} {x : Nat} : ∀ {sc : Scopes} {env : Env} {t : Ty}, EnvOk p sc env →
     sc.findSome? (fun b => (b.find? (·.1 == x)).map (·.2)) = some t →
-    ∃ v, lookupBlocks env x = some v ∧ v.fitsType t = true
+    ∃ v, lookupBlocks env x = some v ∧ Fit p v t
   | [], _, _, _, h => by simp at h
   | _ :: _, [], _, h, _ => by simp [EnvOk] at h
   | b :: sc, eb :: env, t, h, hf => by
@@ -154,7 +251,7 @@ theorem envOk_get {x : Nat} : ∀ {sc : Scopes} {env : Env} {t : Ty}, EnvOk sc e
       obtain ⟨v, hl, hv⟩ := envOk_get h.2 hf
       exact ⟨v, by simp [lookupBlocks, he, hl], hv⟩
 
-theorem envOk_fresh {x : Nat} : ∀ {sc : Scopes} {env : Env}, EnvOk sc env →
+theorem envOk_fresh {p : Program} {x : Nat} : ∀ {sc : Scopes} {env : Env}, EnvOk p sc env →
     sc.any (fun b => b.any (·.1 == x)) = false → lookupBlocks env x = none
   | [], [], _, _ => rfl
   | [], _ :: _, h, _ => by simp [EnvOk] at h
@@ -165,12 +262,52 @@ theorem envOk_fresh {x : Nat} : ∀ {sc : Scopes} {env : Env}, EnvOk sc env →
     have he := (blockOk_find (x := x) h.1).2.2 hf.1
     simp [lookupBlocks, he, envOk_fresh h.2 hf.2]
 
-theorem scopeAdd_bindVar {cx : LCtx} {p : Program} (hg : cx.globals = []) (hpg : p.globals = [])
+theorem envOk_none {p : Program} {x : Nat} : ∀ {sc : Scopes} {env : Env}, EnvOk p sc env →
+    sc.findSome? (fun b => (b.find? (·.1 == x)).map (·.2)) = none → lookupBlocks env x = none
+  | [], [], _, _ => rfl
+  | [], _ :: _, h, _ => by simp [EnvOk] at h
+  | _ :: _, [], h, _ => by simp [EnvOk] at h
+  | b :: sc, eb :: env, h, hf => by
+    simp only [EnvOk] at h
+    simp only [List.findSome?_cons] at hf
+    cases hb : b.find? (·.1 == x) with
+    | some q => simp [hb] at hf
+    | none =>
+      simp only [hb, Option.map_none] at hf
+      have he := (blockOk_find (x := x) h.1).2.1 hb
+      simp [lookupBlocks, he, envOk_none h.2 hf]
+
+/-- the global `let`s as the lowering pass and the evaluator see them -/
+structure GOk (cx : LCtx) (p : Program) : Prop where
+  eq : cx.globals = p.globals.map (fun g => (g.1, g.2.vtype))
+  fit : ∀ g ∈ p.globals, Fit p g.2 g.2.vtype
+
+theorem gOk_any {cx : LCtx} {p : Program} (hG : GOk cx p) (x : Nat) :
+    cx.globals.any (·.1 == x) = (p.global x).isSome := by
+  rw [hG.eq, Program.global, Option.isSome_map]
+  generalize p.globals = gs
+  induction gs with
+  | nil => rfl
+  | cons g gs ih =>
+    simp only [List.map_cons, List.any_cons, List.find?_cons]
+    cases hgx : (g.1 == x) <;> simp [ih]
+
+theorem gOk_get {cx : LCtx} {p : Program} (hG : GOk cx p) {x : Nat} {t : Ty}
+    (h : (cx.globals.find? (·.1 == x)).map (·.2) = some t) : ∃ v, p.global x = some v ∧ Fit p v t := by
+  rw [hG.eq, List.find?_map, Option.map_map, Option.map_eq_some_iff] at h
+  obtain ⟨g, hg, rfl⟩ := h
+  have hg' : p.globals.find? (·.1 == x) = some g := by simpa [Function.comp_def] using hg
+  exact ⟨g.2, by simp [Program.global, hg'], hG.fit g (List.mem_of_find?_eq_some hg')⟩
+
+theorem scopeAdd_bindVar {cx : LCtx} {p : Program} (hG : GOk cx p)
     {sc sc' : Scopes} {env : Env} {x : Nat} {t : Ty} {v : Val}
-    (h : EnvOk sc env) (ha : scopeAdd cx sc x t = some sc') (hv : v.fitsType t = true) :
-    ∃ env', bindVar p env x v = some env' ∧ EnvOk sc' env' := by
+    (h : EnvOk p sc env) (ha : scopeAdd cx sc x t = some sc') (hv : Fit p v t) :
+    ∃ env', bindVar p env x v = some env' ∧ EnvOk p sc' env' := by
   unfold scopeAdd at ha
-  simp only [hg, List.any_nil, Bool.false_eq_true, if_false] at ha
+  split at ha
+  · cases ha
+  rename_i hglob
+  rw [gOk_any hG] at hglob
   split at ha
   · cases ha
   · rename_i hfresh
@@ -184,7 +321,7 @@ theorem scopeAdd_bindVar {cx : LCtx} {p : Program} (hg : cx.globals = []) (hpg :
       | cons eb erest =>
         simp only [Option.some.injEq] at ha; subst ha
         refine ⟨((x, v) :: eb) :: erest, ?_, ?_⟩
-        · simp [bindVar, Program.global, hpg, hl]
+        · simp [bindVar, hglob, hl]
         · simp only [EnvOk] at h ⊢
           exact ⟨by simp only [BlockOk]; exact ⟨trivial, hv, h.1⟩, h.2⟩
 
